@@ -27,7 +27,15 @@ type Sent struct {
 	Data []byte // header followed by body
 	HLen int    // length of the header part
 	At   time.Duration
+	// EnterSeq is the value of the global logical clock when mangos called Send for this message
+	// (a Send may complete much later than it was issued when the peer is slow).
+	EnterSeq int
 }
+
+var tick int
+
+// Tick advances and returns the global logical clock of the virtual transport.
+func Tick() int { tick++; return tick }
 
 // Pipe is one connection; mangos holds it as a transport.Pipe, the harness as *Pipe.
 type Pipe struct {
@@ -93,7 +101,7 @@ var (
 )
 
 // Reset forgets all endpoints (between executions; runs outside the scheduler).
-func Reset() { endpoints = map[string]*Endpoint{} }
+func Reset() { endpoints = map[string]*Endpoint{}; tick = 0 }
 
 // Get returns (creating if needed) the endpoint handle for a name.
 func Get(name string) *Endpoint {
@@ -361,6 +369,7 @@ func (ep *Endpoint) PipeAt(i int) *Pipe {
 func (p *Pipe) Send(m *mangos.Message) error {
 	p.mu.Lock()
 	defer p.mu.Unlock()
+	enter := Tick()
 	p.sendWait++
 	for p.hold && p.credits == 0 && !p.dropped && !p.closed {
 		p.cv.Wait()
@@ -379,7 +388,7 @@ func (p *Pipe) Send(m *mangos.Message) error {
 	d = append(d, m.Header...)
 	d = append(d, m.Body...)
 	vsched.Tracef("vt pipe %d: mangos sent %q", p.Index, d)
-	p.sent = append(p.sent, Sent{Data: d, HLen: len(m.Header), At: vsched.Now()})
+	p.sent = append(p.sent, Sent{Data: d, HLen: len(m.Header), At: vsched.Now(), EnterSeq: enter})
 	p.nsend++
 	m.Free()
 	return nil
@@ -530,4 +539,21 @@ func TotalSent() int {
 		}
 	}
 	return n
+}
+
+// DropAll drops every live connection of every endpoint (peer side).
+func DropAll() {
+	regMu.Lock()
+	eps := make([]*Endpoint, 0, len(endpoints))
+	for _, ep := range endpoints {
+		eps = append(eps, ep)
+	}
+	regMu.Unlock()
+	for _, ep := range eps {
+		for i := 0; i < ep.NumPipes(); i++ {
+			if p := ep.PipeAt(i); p.Alive() {
+				p.DropNow()
+			}
+		}
+	}
 }
